@@ -55,10 +55,18 @@ pub fn parse_op(t: &[&str], pos: &mut usize) -> Option<DataOperator<'static>> {
     })
 }
 
+/// an integer against a float, by value (for an integer n: n < f iff n < ceil(f), n > f iff n > floor(f); the casts
+/// of the rounded floats saturate, which is what the comparison needs)
+pub fn int_vs_float(n: i128, f: f64) -> Option<std::cmp::Ordering> {
+    if f.is_nan() { return None; }
+    Some(if n < f.ceil() as i128 || f == f64::INFINITY { std::cmp::Ordering::Less } else if n > f.floor() as i128 || f == f64::NEG_INFINITY { std::cmp::Ordering::Greater } else { std::cmp::Ordering::Equal })
+}
+
 /// the documented comparison semantics, written independently of the library:
-/// a test only succeeds between a value and an operator of the same type family
+/// equality tests succeed between a value and an operator of the same type family
 /// (string/int/float/bool/datetime/list), `Equals` with a string also compares numbers and booleans
-/// by their textual form, `Any` always holds, and Not/And/Or are the boolean connectives.
+/// by their textual form, the ordering operators hold when "the datavalue is numeric and greater (less) than the value
+/// with the operator" (integer or float on either side), `Any` always holds, and Not/And/Or are the boolean connectives.
 fn naive(v: &DataValue, t: &[&str], pos: &mut usize) -> Option<bool> {
     let tok = *t.get(*pos)?;
     *pos += 1;
@@ -93,6 +101,14 @@ fn naive(v: &DataValue, t: &[&str], pos: &mut usize) -> Option<bool> {
                 (DataValue::Int(n), "ge") => (*n as i64) >= qv(a)?,
                 (DataValue::Int(n), "lt") => (*n as i64) < qv(a)?,
                 (DataValue::Int(n), "le") => (*n as i64) <= qv(a)?,
+                (DataValue::Float(f), "gt") => int_vs_float(qv(a)? as i128, *f) == Some(std::cmp::Ordering::Less),
+                (DataValue::Float(f), "ge") => matches!(int_vs_float(qv(a)? as i128, *f), Some(std::cmp::Ordering::Less) | Some(std::cmp::Ordering::Equal)),
+                (DataValue::Float(f), "lt") => int_vs_float(qv(a)? as i128, *f) == Some(std::cmp::Ordering::Greater),
+                (DataValue::Float(f), "le") => matches!(int_vs_float(qv(a)? as i128, *f), Some(std::cmp::Ordering::Greater) | Some(std::cmp::Ordering::Equal)),
+                (DataValue::Int(n), "gtf") => int_vs_float(*n as i128, qv(a)? as f64 / 4.0) == Some(std::cmp::Ordering::Greater),
+                (DataValue::Int(n), "gef") => matches!(int_vs_float(*n as i128, qv(a)? as f64 / 4.0), Some(std::cmp::Ordering::Greater) | Some(std::cmp::Ordering::Equal)),
+                (DataValue::Int(n), "ltf") => int_vs_float(*n as i128, qv(a)? as f64 / 4.0) == Some(std::cmp::Ordering::Less),
+                (DataValue::Int(n), "lef") => matches!(int_vs_float(*n as i128, qv(a)? as f64 / 4.0), Some(std::cmp::Ordering::Less) | Some(std::cmp::Ordering::Equal)),
                 (DataValue::Float(f), "eqf") => (*f * 4.0) as i64 == qv(a)?,
                 (DataValue::Float(f), "gtf") => ((*f * 4.0) as i64) > qv(a)?,
                 (DataValue::Float(f), "gef") => ((*f * 4.0) as i64) >= qv(a)?,
@@ -172,6 +188,32 @@ pub fn run(opts: &Opts) -> Report {
     let mut rng = Rng::new(opts.seed);
     let values = values_menu();
     let ops = ops_menu(&mut rng);
+    // ---------- integers against floats at the edges of both ranges (beyond the model's quarters): by value, the
+    // integer is not rounded to a float first ----------
+    {
+        use std::cmp::Ordering::*;
+        let ints: [isize; 13] = [isize::MIN, isize::MIN + 1, -9007199254740993, -9007199254740992, -4, -3, 0, 3, 4, 9007199254740992, 9007199254740993, isize::MAX - 1, isize::MAX];
+        let floats: [f64; 22] = [f64::NEG_INFINITY, -1e300, -9223372036854777856.0, -9223372036854775808.0, -9223372036854774784.0, -9007199254740994.0, -9007199254740992.0, -3.5, -3.0, -0.0, 0.0, 5e-324, 2.9999999999999996, 3.0, 3.5, 9007199254740992.0, 9007199254740994.0, 9223372036854774784.0, 9223372036854775808.0, 1e300, f64::INFINITY, f64::NAN];
+        for n in ints { for f in floats {
+            let want = int_vs_float(n as i128, f); // the integer against the float
+            let table: [(&str, DataValue, DataOperator, bool); 8] = [
+                ("float>int", DataValue::Float(f), DataOperator::GreaterThan(n), want == Some(Less)),
+                ("float>=int", DataValue::Float(f), DataOperator::GreaterThanOrEqual(n), matches!(want, Some(Less) | Some(Equal))),
+                ("float<int", DataValue::Float(f), DataOperator::LessThan(n), want == Some(Greater)),
+                ("float<=int", DataValue::Float(f), DataOperator::LessThanOrEqual(n), matches!(want, Some(Greater) | Some(Equal))),
+                ("int>float", DataValue::Int(n), DataOperator::GreaterThanFloat(f), want == Some(Greater)),
+                ("int>=float", DataValue::Int(n), DataOperator::GreaterThanOrEqualFloat(f), matches!(want, Some(Greater) | Some(Equal))),
+                ("int<float", DataValue::Int(n), DataOperator::LessThanFloat(f), want == Some(Less)),
+                ("int<=float", DataValue::Int(n), DataOperator::LessThanOrEqualFloat(f), matches!(want, Some(Less) | Some(Equal))),
+            ];
+            for (name, v, op, w) in table {
+                rep.count("test:integer-against-float-at-the-edges");
+                rep.case(Some(&format!("edge {} {} {:?}", name, n, f)));
+                let got = guarded(std::panic::AssertUnwindSafe(|| v.test(&op)));
+                if got != Ok(w) { rep.fail(if got.is_err() { "panic" } else { "oracle" }, &format!("test/numeric-cross-type/{}", name), vec![format!("value={:?} operator={:?}", v, op)], &w.to_string(), &format!("{:?}", got)); }
+            }
+        } }
+    }
     // ---------- the comparison table ----------
     for vs in &values {
         let v = parse_value(vs);
